@@ -98,8 +98,10 @@ fn rbin_core(a: &Range<u32>, sa: &[Seg], b: &Range<u32>, sb: &[Seg], with_alt: b
     let mut common = false;
     let mut a_in_b = true;
     let mut same = true;
+    let top = *grid.last().unwrap_or(&0);
+    let (ma, mb) = (membership(&sa, top), membership(&sb, top));
     for &g in &grid {
-        let (ca, cb) = (segs_contain(&sa, g), segs_contain(&sb, g));
+        let (ca, cb) = (ma[g as usize], mb[g as usize]);
         if a.contains(&g) != ca || b.contains(&g) != cb {
             set(format!("contains disagrees with the reference membership at {}", g));
         }
